@@ -18,6 +18,9 @@ RULE = ("Engine F: generated factories, every node type x blocking flag x out-ed
         "out-edge at least once and a free one at least once.")
 RULE += (" Two in ten flow-shaped factories also contain rework loops (a machine feeding itself or a machine of an earlier layer through a "
          "Buffer / Fleet edge with a strictly positive delay / transit time, so no zero-time cycle exists); machine oracles work per visit, not per item.")
+RULE += (" One factory in three has two user-written SimPy processes sharing a Buffer out-edge of a non-blocking Machine / Source with that node "
+         "(reserve_put, hold the granted place, reserve_put_cancel; no items), so that granted and waiting space requests of strangers are "
+         "withdrawn around the node's own decisions.")
 ASSUMPTIONS = ["non-blocking nodes in front of conveyors are excluded by construction (known finding K1, C20)",
                "room is judged for Buffer/Fleet out-edges at the kernel event of the probe"]
 
@@ -28,12 +31,33 @@ def examples(tier):
     return 8000 if tier == "quick" else 240000
 
 
-def _more_nonblocking(spec):
-    return spec
+_IW = [0.3, 0.5, 1, 1.3, 2, 0.7]
+_IH = [0.5, 1, 2, 0.7, 1.3]
+
+
+def _with_intruders(spec):
+    """one factory in three: two user-written processes share the first Buffer out-edge of a non-blocking Machine / Source with
+    that node (they ask for space, hold the granted place for a while and give it back; nothing is put).  Scripts are a pure
+    function of the spec's seed."""
+    s = int(spec.get("seed", 0))
+    if s % 3 != 0 or spec.get("via"):
+        return spec
+    nb = [n["id"] for n in spec["nodes"] if n.get("blocking") is False and n["type"] in ("Machine", "Source")]
+    edges = [e for e in spec["edges"] if e["kind"] == "Buffer" and e["src"] in nb]
+    if not edges:
+        return spec
+    e = edges[(s // 3) % len(edges)]
+    intr = []
+    for j in range(2):
+        k = s // 7 + 5 * j
+        intr.append({"edge": e["id"],
+                     "waits": [_IW[(k + 2 * i + j) % len(_IW)] for i in range(6)],
+                     "holds": [_IH[(k + 3 * i) % len(_IH)] for i in range(6)]})
+    return dict(spec, intruders=intr)
 
 
 def strategy(tier):
-    return gen_factory.factories(PROFILE)
+    return gen_factory.factories(PROFILE).map(_with_intruders)
 
 
 shrink_candidates = gen_factory.shrink_candidates
@@ -281,6 +305,8 @@ def run_case(case):
     f.run()
     nb = [n["type"] for n in case["nodes"] if n.get("blocking") is False]
     res.classes += ["shape:" + case.get("shape", "?")] + sorted(set("nonblocking:" + t for t in nb))
+    if case.get("intruders"):
+        res.classes.append("user_processes_on_out_edge")
     if f.crashed or f.build_error:
         res.aborted = "crash:%s" % type(f.crashed or f.build_error).__name__
     if f.livelock:
